@@ -212,7 +212,11 @@ def run_items(modname, items, nproc=None, timeout=600, logdir=None,
             if w is None or not w.alive() or w.key != wk:
                 if w is not None:
                     w.close()
-                w = workers[fl] = _Worker(modname, fl, k, logdir, extra_env)
+                # an item with its own worker_key may also bring its own
+                # environment (e.g. a PYTHONHASHSEED of its own)
+                env_ = dict(extra_env or {})
+                env_.update(it.get('env') or {})
+                w = workers[fl] = _Worker(modname, fl, k, logdir, env_)
                 w.key = wk
             r = w.run(it, it.get('timeout', timeout))
             r.setdefault('status', 'ok')
